@@ -709,6 +709,9 @@ func (w *World) pick(cur *Task, preempt bool) *Task {
 			}
 			evs[ne] = e
 			ne++
+			if w.Quiet {
+				break // quiet phase: due events fire in the order they were scheduled (no reordering)
+			}
 		}
 		total := nt + ne
 		// optional: let time pass although tasks are runnable (slow / stalled tasks)
